@@ -70,8 +70,9 @@ class C03(Prop):
             if rng.random() < 0.4:
                 for _ in range(rng.randint(1, 3)):
                     repl.append([rng.randrange(n), [None, T0 + rng.randrange(0, 20) * 100 * MS, rng.choice([0, 100 * MS, 1000 * MS]), rng.choice([LA, LB])]])
+            reopen = rng.random() < 0.2 and not repl
             for be in storelib.BACKENDS:
-                out.append(("random-window", {"backend": be, "events": evs, "reads": reads, "replace": repl}))
+                out.append(("random-window", {"backend": be, "events": evs, "reads": reads, "replace": repl, "reopen": reopen}))
         # buckets and windows at the very start of the time range (the epoch itself is instant 0)
         for _ in range(ctx.pick(40, 600)):
             evs = [[None, rng.choice([0, 0, MS, 100 * MS, 1000 * MS]), rng.choice([0, 0, 1, MS, 500 * MS]), rng.choice([LA, LB])]
@@ -109,7 +110,16 @@ class C03(Prop):
             ds = store.ds
             ds.create_bucket("w", "t", "c", "h", created=us_to_dt(T0))
             b = ds["w"]
-            b.insert([mk_event(e) for e in case["events"]])
+            if case.get("reopen") and len(case["events"]) >= 2:
+                # the events were written by an earlier run of the client; this run opens the database again and writes one
+                # more event before it reads anything
+                b.insert([mk_event(e) for e in case["events"][:-1]])
+                store.reopen()
+                ds = store.ds
+                b = ds["w"]
+                b.insert(mk_event(case["events"][-1]))
+            else:
+                b.insert([mk_event(e) for e in case["events"]])
             ids = sorted(x[0] for x in storelib.dump(store)["w"]["events"])
             for idx, ev in case.get("replace", []):
                 b.replace(ids[idx], mk_event(ev))
